@@ -19,7 +19,7 @@ PROPERTY = 'C05'
 RULE = ('Dense-time past fragment (once/historically/since bounded and unbounded, Boolean, arithmetic, predicates) and a pastified lane '
         '(bounded eventually/always, pastify() first) on grid signals of up to 6 samples per variable; a schedule cuts the input into '
         'successive update() calls: all at once, one sample per update, random common cut instants, and per-variable independent cuts '
-        '(one operand runs ahead); lanes for unbounded operators under arbitrary schedules, bounded / pastified operators in one update and in several updates; for one-variable cases with <= 5 samples ALL 2^(n-1) schedules are enumerated for a fixed family of 12 formulas; lane skewed: 34-70 samples per variable, one variable delivered completely (or in one update) before the others, so that two-operand nodes keep a long backlog; in the per-variable schedules a variable without new samples is either listed with an empty list or (after its first mention) left out of the call. lane staggered: formulas without temporal operators over variables whose signals start at different instants (compared from the latest start on). lane far_twins: two bounded past operators over one operand with bounds of 10^6..10^8 time units that differ in the seventh or a later digit, compared with the dense-time offline monitor of rtamt itself (the grid reference would need 10^7 cells). in one case in four the caller passes the same list object per variable in every call and refills it in place. Oracle: (i) every '
+        '(one operand runs ahead); lanes for unbounded operators under arbitrary schedules, bounded / pastified operators in one update and in several updates; for one-variable cases with <= 5 samples ALL 2^(n-1) schedules are enumerated for a fixed family of 12 formulas; lane skewed: 34-70 samples per variable, one variable delivered completely (or in one update) before the others, so that two-operand nodes keep a long backlog; in the per-variable schedules a variable without new samples is either listed with an empty list or (after its first mention) left out of the call. lane bigint_time: untimed past formulas on signals whose time stamps are Python integers of the order of 1.7e18, a few units apart, in one or two updates, read at integer instants. lane staggered: formulas without temporal operators over variables whose signals start at different instants (compared from the latest start on). lane far_twins: two bounded past operators over one operand with bounds of 10^6..10^8 time units that differ in the seventh or a later digit, compared with the dense-time offline monitor of rtamt itself (the grid reference would need 10^7 cells). in one case in four the caller passes the same list object per variable in every call and refills it in place. Oracle: (i) every '
         'returned element is a [time, value] pair with finite time and the concatenation has non-decreasing time stamps; (ii) read as a '
         'step function it equals the grid reference R-ct (shifted by the horizon after pastify) at every cell start / midpoint it '
         'covers; (iii) two schedules of the same case agree wherever both cover. Non-trivial = >= 2 update calls, non-empty output and '
@@ -546,7 +546,72 @@ def check_far_twins(case):
     return PASS(compared >= 3 and case['b'][0] != case['b'][1], labels)
 
 
+@st.composite
+def bigint_time_cases(draw, tier):
+    """Untimed past formulas on signals whose time stamps are Python integers of the order of 1.7e18, a few units apart (far below
+    the spacing of doubles there), delivered in one update or cut at one of the stamps."""
+    f, vs = draw(F.formulas(DENSE_PAST.copy(tun=(), tbin=(), max_depth=3)))
+    t0 = draw(st.sampled_from([1700000000000000000, 2 ** 53 + 1, 2 ** 62 + 12345, 1700000000123456789]))
+    sig = {}
+    for v in vs:
+        n = draw(st.sampled_from([2, 3, 4, 5, 6, 8]))
+        k, xs = t0, []
+        for _ in range(n):
+            xs.append([k, draw(F.values())])
+            k += draw(st.sampled_from([1, 2, 3, 5, 7]))
+        sig[v] = xs
+    return {'formula': f, 'vars': vs, 'signals': sig, 'cut': draw(st.sampled_from([None, 1, 2, 3, 5, 8, 13]))}
+
+
+def check_bigint_time(case):
+    """Integer time stamps beyond 2**53 through the online monitor: what it reports, read at the integer instants it covers,
+    equals the grid reference (cells of one time unit), in one update and in two; instants are compared as integers."""
+    f = from_json(case['formula'])
+    used = F.fvars(f)
+    labels = feature_labels(f) + ['integer-time-stamps>2^53', 'updates:%d' % (1 if case.get('cut') is None else 2)]
+    if not used:
+        return DISCARD('no-variable', labels)
+    sig = {v: [(int(k), float(x)) for k, x in case['signals'][v]] for v in case['vars'] if v in used}
+    for x in F.subterms(f):
+        arith = (x[0] == 'pred') or (x[0] == 'bin' and x[1] in F.BIN_ARITH) or (x[0] == 'un' and x[1] in F.UN_ARITH)
+        if (x[0] in ('pred', 'bin', 'un') and not F.fvars(x)) or (not arith and any(c[0] == 'const' for c in F.children(x))):
+            return DISCARD('variable-free-subformula-with-t0>0', labels)
+    try:
+        K0, Kend, ref = ct_cells(f, sig)
+    except Undefined:
+        return DISCARD('undefined', labels)
+    text = 'out = ' + F.show(f)
+    sig_t = {v: [[k, x] for k, x in s] for v, s in sig.items()}
+    if case.get('cut') is None:
+        batches = [sig_t]
+    else:
+        c = K0 + case['cut']
+        batches = [b for b in ({v: [p for p in s if p[0] <= c] for v, s in sig_t.items()}, {v: [p for p in s if p[0] > c] for v, s in sig_t.items()}) if any(b.values())]
+    o = run_schedule(text, list(sig), batches, False)
+    off = run_ct_off(text, list(sig), sig_t)
+    desc = 'spec: %s\nsignals (integer time stamps): %s\nupdates: %s' % (text, sig_t, batches)
+    if off[0] != 'ok':
+        return DISCARD('offline-raises(C04)', labels)
+    if o[0] != 'ok':
+        return FAIL('chunked-raises:%s@%s' % (o[1], o[4].split(':')[-1]), desc + '\nonline run raised %s: %s at %s\noffline returns %r' % (o[1], o[3], o[4], off[1]), labels)
+    out = concat(o[1])
+    msg = check_shape(out)
+    if msg:
+        return FAIL('shape', desc + '\noutputs per update: %r\n%s' % (o[1], msg), labels)
+    tol = needs_tolerance(f)
+    if out:
+        for k in range(max(K0, int(out[0][0])), min(Kend, int(out[-1][0])) + 1):
+            got = step_at(out, k)
+            if got is None or not same(got, ref[k - K0], tol):
+                if not same(step_at(off[1], k) if step_at(off[1], k) is not None else float('nan'), ref[k - K0], tol):
+                    return DISCARD('offline-differs-from-reference(C04)', labels)
+                return FAIL('online-differs-from-reference:integer-time-stamps', desc + '\noutputs per update: %r\nat t = t0 + %d the online output is %r, reference %r' % (
+                    o[1], k - K0, got, ref[k - K0]), labels)
+    return PASS(bool(out) and (F.n_temporal(f) >= 1 or len(sig) >= 2), labels)
+
+
 LANES = [
+    Lane('bigint_time', bigint_time_cases, check_bigint_time, 600, 6000, None),
     Lane('far_twins', far_twin_cases, check_far_twins, 1000, 10000, None),
     Lane('near_twins', near_twin_cases, check, 1200, 15000, candidates),
     Lane('long_chunked', long_cases, check, 600, 8000, candidates),
